@@ -83,7 +83,7 @@ def driver_universe(ex, ck, aborts=False, budget=None):
                     max_runs=60 if quick else 600)
     for data in JS_SNIPPETS:
         for strategy in others[3:]:
-            explore(strategy, {}, lines_tc(data), stream=strategy, replay=True,
+            explore(strategy, {}, lines_tc(data), stream=strategy, replay=strategy != "replace-properties-by-globals",
                     max_runs=(150 if data.count(b"foo(") >= 3 else 60) if quick else 800, cap=300)
     # 2b. deterministic "accept the original and exactly one other file" tests, for every file seen in a
     #     reject-everything run (size-preserving candidates of the move option can restore the original)
@@ -134,14 +134,25 @@ def session_universe(ck, oracle, quick=True, strategies=("minimize", "minimize-a
     for s1 in ("check-only",) + tuple(strategies):
         for s2 in ("check-only",) + tuple(strategies):
             for v1, v2 in (("Y", "N"), ("YNNY" * 5, "N"), ("Y", "Y" + "NY" * 20), ("N", "Y" * 50),
-                           ("YYNR", "YNY" * 10), ("YNNNNNNNNNNNNNNN", "YNNNNNNNNNNNNNNNNNN")):
+                           ("YYNR", "YNY" * 10), ("YNNNNNNNNNNNNNNN", "YNNNNNNNNNNNNNNNNNN"),
+                           ("YYNY" * 3, "YYR"), ("Y" * 8, "YNR"), ("YNYN" * 4, "YR")):
                 plans.append((s1, s2, v1, v2))
     r.shuffle(plans)
-    for s1, s2, v1, v2 in plans[: (60 if quick else 600)]:
+    for s1, s2, v1, v2 in plans[: (90 if quick else 900)]:
         f1, f2 = r.choice(files), r.choice(files)
         steps = [{"strategy": s1, "cfg": {}, "atom": "line", "file0": f1, "verdict": v1},
                  {"strategy": s2, "cfg": {}, "atom": "line", "file0": f2, "verdict": v2}]
         runs = impl_session(steps)
+        # the temp dir is a log: the numbered files of an earlier run are still there, unchanged, after a later one
+        prev = {n: b for n, b, _ in runs[0].temp if n != "original"}
+        now = {n: b for n, b, _ in runs[1].temp}
+        lost = [n for n, b in prev.items() if now.get(n) != b]
+        if lost and "Hang" not in (runs[0].exc, runs[1].exc):
+            from explore import replay_doc
+            ck.violation(f"second run on the same Lithium object ({s1} then {s2}) overwrote / removed intermediate "
+                         f"files of the first run in the shared temp dir: {sorted(lost)}",
+                         {"session": [s1, s2, v1, v2, f1.hex(), f2.hex()], "first_run_files": sorted(prev),
+                          "second_run_files": sorted(now)})
         for step, run in zip(steps, runs):
             ck.count("session")
             ck.nontrivial(("session", s1, s2, v1[:4], v2[:4], f1, f2))
